@@ -4,25 +4,31 @@
 (*   reset {dir}                       new run; dir: an identity directory is configured            *)
 (*   run_call / run_ret {err}          SPIFFE.Run                                                    *)
 (*   ready_call {r} / ready_ret {r,err}                                                              *)
-(*   get_call {g,after} / get_ret {g,svid,key,err}                                                   *)
+(*   get_call {g,after} / get_ret {g,svid,key,chain,err}                                             *)
 (*        after: the Ready call the same consumer made (and saw return) just before, 0 if none;     *)
 (*        svid: number of the request whose certificate is served (0: none); key: number of the     *)
-(*        request whose private key the SVID carries                                                 *)
+(*        request whose private key the SVID carries; chain: ids of its certificates (a leaf has the *)
+(*        number of its request, IntId the intermediate CA, RootId the self-signed root)             *)
 (*   req {n,now,keyid}                 RequestSVIDFn invoked for the n-th time at clock `now` (s);   *)
 (*        keyid: number of the first request that used this CSR public key (= n iff fresh)           *)
-(*   issue {n,ok,chain,hasid,nb,na,anchors}  what the issuer answered: ok=FALSE an error; chain:     *)
-(*        a non-empty chain; hasid: the leaf has a SPIFFE ID; validity [nb,na] in clock seconds;     *)
-(*        anchors: version of the trust anchors current from now on                                  *)
+(*   issue {n,ok,chain,certs,hasid,nb,na,anchors}  what the issuer answered: ok=FALSE an error;      *)
+(*        chain: a non-empty chain, certs: its certificate ids; hasid: the leaf has a SPIFFE ID;     *)
+(*        validity [nb,na] in clock seconds; anchors: version of the trust anchors current from now  *)
 (*   adv {now}                         the clock was moved                                            *)
-(*   files {set,key,cert,ca}           what the identity directory resolves to: set = "none" |       *)
-(*        "partial" | "set"; key/cert: request numbers of key.pem / cert.pem; ca: anchors version    *)
+(*   files {set,key,cert,chain,ca}     what the identity directory resolves to: set = "none" |       *)
+(*        "partial" | "set"; key/cert: request numbers of key.pem / the leaf of cert.pem; chain: ids *)
+(*        of all certificates in cert.pem; ca: anchors version                                       *)
 (*   cancel                            the context of Run was cancelled                               *)
-(*   quiescent                         every goroutine is blocked in the runtime and none is held    *)
-(*                                     at a gate of the harness                                       *)
+(*   quiescent {served}                every goroutine is blocked in the runtime and none is held    *)
+(*                                     at a gate of the harness; served: the SVID GetX509SVID        *)
+(*                                     answers right now (request number, 0 none, -1 not probed)     *)
 (*   stuck {n}                         end of the run: n Ready/Get calls never returned              *)
 (* Times are whole seconds.  Half-life comparisons are done on doubled values.                       *)
 EXTENDS Integers, Sequences, FiniteSets, TLC
 
+IntId == 1000001
+RootId == 1000002
+NonRoot(s) == SelectSeq(s, LAMBDA x : x # RootId)   \* EncodeX509Chain leaves self-signed certificates out
 Bad(why) == [bad |-> TRUE, why |-> why]
 IsBad(c) == c.bad
 CReset(dir) == [bad |-> FALSE, why |-> "", dir |-> dir, now |-> 0,
@@ -32,7 +38,8 @@ CReset(dir) == [bad |-> FALSE, why |-> "", dir |-> dir, now |-> 0,
                 good |-> 0,          \* the most recent successful fetch
                 settled |-> 0,       \* ... as of the last quiescent point (surely published by then)
                 readys |-> << >>, gets |-> << >>,
-                files |-> 0, filesSeen |-> FALSE]
+                files |-> 0, filesSeen |-> FALSE,
+                early |-> 0]         \* consecutive successful fetches that were followed by a new request before half-life
 
 Max2(a, b) == IF a >= b THEN a ELSE b
 InitDone(c) == Len(c.iss) >= 1
@@ -70,13 +77,23 @@ FilesAtRest(c) ==
        ELSE Bad("the identity directory does not hold the most recently fetched SVID")
   ELSE c
 
+(* at rest the SVID served is the most recently fetched one, and the directory holds that very identity *)
+ServedAtRest(c, e) ==
+  IF e.served < 0 \/ c.cancelled \/ ~InitOK(c) \/ Len(c.reqs) # Len(c.iss) THEN c
+  ELSE IF c.dir /\ c.filesSeen /\ c.files > e.served
+       THEN Bad("the identity directory holds an identity newer than the SVID served: disk and memory diverge")
+  ELSE IF e.served # c.good THEN Bad("the SVID served at rest is not the most recently fetched one")
+  ELSE c
+
 CQuiescent(c, e) ==
   LET c1 == Blocked(c) IN
   IF IsBad(c1) THEN c1
   ELSE LET c2 == Due(c) IN
        IF IsBad(c2) THEN c2
-       ELSE LET c3 == FilesAtRest(c) IN
-            IF IsBad(c3) THEN c3 ELSE [c EXCEPT !.settled = c.good]
+       ELSE LET c4 == ServedAtRest(c, e) IN
+            IF IsBad(c4) THEN c4
+            ELSE LET c3 == FilesAtRest(c) IN
+                 IF IsBad(c3) THEN c3 ELSE [c EXCEPT !.settled = c.good]
 
 CStuck(c, e) == IF e.n = 0 THEN c ELSE Blocked(c)
 
@@ -99,6 +116,7 @@ CGetRet(c, e) ==
        THEN Bad("the SVID served was never successfully fetched: a failed or rejected renewal disturbed it")
   ELSE IF e.svid < g.floor THEN Bad("the SVID served is older than the most recently fetched one")
   ELSE IF e.key # c.reqs[e.svid].key THEN Bad("the SVID served carries a private key that does not belong to its certificate")
+  ELSE IF e.chain # c.iss[e.svid].certs THEN Bad("the SVID served does not carry the certificate chain the issuer answered")
   ELSE ok
 
 CReq(c, e) ==
@@ -106,11 +124,14 @@ CReq(c, e) ==
   ELSE IF e.keyid # e.n THEN Bad("a fetch reused the private key of an earlier fetch")
   ELSE IF e.n > 1 /\ ~c.iss[e.n - 1].good /\ e.now < c.iss[e.n - 1].at + 10
        THEN Bad("a failed renewal was retried earlier than 10 s after the failure")
-  ELSE [c EXCEPT !.reqs = Append(@, [at |-> e.now, key |-> e.keyid])]
+  ELSE LET p == IF e.n > 1 /\ c.iss[e.n - 1].good /\ 2 * e.now < c.iss[e.n - 1].nb + c.iss[e.n - 1].na /\ e.now < c.iss[e.n - 1].at + 60
+                 THEN c.early + 1 ELSE 0 IN
+       IF p >= 3 THEN Bad("renewal never completes: the issuer answers with good certificates and is asked again at once, time after time")
+       ELSE [c EXCEPT !.reqs = Append(@, [at |-> e.now, key |-> e.keyid]), !.early = p]
 
 CIssue(c, e) ==
   LET good == e.ok /\ e.chain /\ e.hasid IN
-  [c EXCEPT !.iss = Append(@, [good |-> good, at |-> c.now, nb |-> e.nb, na |-> e.na, anchors |-> e.anchors]),
+  [c EXCEPT !.iss = Append(@, [good |-> good, at |-> c.now, nb |-> e.nb, na |-> e.na, anchors |-> e.anchors, certs |-> e.certs]),
             !.good = IF good THEN e.n ELSE @]
 
 CFiles(c, e) ==
@@ -120,6 +141,8 @@ CFiles(c, e) ==
   ELSE IF e.cert \notin DOMAIN c.iss \/ ~c.iss[e.cert].good
        THEN Bad("a certificate that was not accepted (and its throw-away key) was published to the identity directory")
   ELSE IF e.key # c.reqs[e.cert].key THEN Bad("key.pem and cert.pem in the identity directory belong to different fetches")
+  ELSE IF e.chain # NonRoot(c.iss[e.cert].certs)
+       THEN Bad("cert.pem in the identity directory differs from the certificate chain of the served SVID (self-signed roots excepted)")
   ELSE IF e.ca # c.iss[e.cert].anchors THEN Bad("ca.pem in the identity directory is not the trust anchors current at the fetch")
   ELSE IF e.cert < c.files THEN Bad("the identity directory went back to an older file set")
   ELSE [c EXCEPT !.files = e.cert, !.filesSeen = TRUE]
